@@ -172,6 +172,7 @@ class Executor(object):
         self._for_covers = {}
         self._loops_done = set()
         self.stats = dict(feasibility_checks=0, paths=0)
+        self.annihilations = None             # opt-in: list of (array operand, line) multiplied by the constant zero
         self.cmp_log = {}                     # name of the fresh boolean of an unmodelled comparison -> (op, left, right)
         self.dtype_tags = {}                  # id(value) -> (tag, value): opt-in provenance of an array's dtype (`x.dtype` then names the tag)
         self.borrowed = {}                    # id(value object) -> description: arrays the caller of the verified function still holds
@@ -671,6 +672,13 @@ class Executor(object):
         return out
 
     def binop(self, op, a, b, st, ctx, node=None):
+        if self.annihilations is not None and type(op).__name__ == "Mult":
+            # `x * 0` equals 0 over the reals (A1) but not in IEEE arithmetic (nan * 0 = inf * 0 = nan): harnesses that hand in buffers left
+            # by earlier calls ask which array-valued operands were "cleared" this way
+            for x, z in ((a, b), (b, a)):
+                zero = (isinstance(z, (int, float, Fraction)) and not isinstance(z, bool) and z == 0) or (isinstance(z, Poly) and z.is_const() and z.const_value() == 0)
+                if zero and isinstance(x, (LinComb, BlockVec, ConcVec, SeqVal)):
+                    self.annihilations.append((x, getattr(node, "lineno", 0)))
         try:
             return B.binop(self, type(op).__name__, a, b, st, ctx)
         except B.Havoc as h:
